@@ -790,9 +790,13 @@ type vC19Answer struct {
 	eff netip.Prefix // invalid: everyone
 }
 
-func vC19DeclaredScope(opts []dns.EDNS0, hasOPT bool) netip.Prefix {
+// what the authority declared, read off its option alone: kind 0 nothing / SCOPE 0, 1 a scope, 2 a scope
+// longer than the family's addresses (read as the whole address; it is cut down like any scope longer than
+// what was forwarded), 3 a non-zero SCOPE nobody can interpret (family and address disagree, unusable
+// address, unknown family): tailored to somebody, but not shareable
+func vC19DeclaredScope(opts []dns.EDNS0, hasOPT bool) (netip.Prefix, int) {
 	if !hasOPT {
-		return netip.Prefix{}
+		return netip.Prefix{}, 0
 	}
 	for _, o := range opts {
 		s, ok := o.(*dns.EDNS0_SUBNET)
@@ -800,19 +804,19 @@ func vC19DeclaredScope(opts []dns.EDNS0, hasOPT bool) netip.Prefix {
 			continue
 		}
 		if s.SourceScope == 0 {
-			return netip.Prefix{}
+			return netip.Prefix{}, 0
 		}
 		a, ok := vC19AddrOfIP(s.Address)
 		if !ok || (s.Family == 1 && !a.Is4()) || (s.Family == 2 && !a.Is6()) || (s.Family != 1 && s.Family != 2) {
-			return netip.Prefix{}
+			return netip.Prefix{}, 3
 		}
-		p, err := a.Prefix(int(s.SourceScope))
-		if err != nil {
-			return netip.Prefix{}
+		kind, bits := 1, int(s.SourceScope)
+		if bits > a.BitLen() {
+			kind, bits = 2, a.BitLen()
 		}
-		return p
+		return netip.PrefixFrom(a, bits), kind
 	}
-	return netip.Prefix{}
+	return netip.Prefix{}, 0
 }
 
 func vC19Effective(pol *ecs.Policy, declared netip.Prefix, seen *dns.EDNS0_SUBNET) netip.Prefix {
@@ -900,6 +904,7 @@ func TestVerifC19Cache(t *testing.T) {
 	r := rand.New(rand.NewSource(int64(vC19EnvInt("VERIF_SEED", 1))))
 	n := vC19EnvInt("VERIF_N", 300)
 	vC19LeakReplay(tr)
+	vC19OverlongReplay(tr)
 	for c := 0; c < n; c++ {
 		if c%4 == 3 {
 			vC19DenialCase(tr, r)
@@ -907,6 +912,13 @@ func TestVerifC19Cache(t *testing.T) {
 			vC19HistoryCase(tr, r)
 		}
 	}
+}
+
+func fkeyOf(unusableScope bool) string {
+	if unusableScope {
+		return "unusable-scope-filed-shared"
+	}
+	return ""
 }
 
 // one planned query of a history
@@ -941,6 +953,23 @@ func vC19LeakReplay(tr *vC19Trace) {
 		{cl: vC19Client{remote: vC19V4(198, 51, 100, 11), hasOPT: true}, upTTL: 60, rfTTL: 60, upGen: none, rfGen: none},
 	}
 	vC19ExecHistory(tr, b, 0, true, false, func(*ecs.Policy, [2]int) []vC19Planned { return plan }, "cache-replay-refresh")
+}
+
+// the witness of Properties.tailored_answer_never_shared_refuted (Proofs_cache.overlong_ops), replayed on
+// the real code on every run: SCOPE /33 on an IPv4 option, then a client without a subnet option
+func vC19OverlongReplay(tr *vC19Trace) {
+	b := vC19BuildArgs{enabled: true}
+	none := func(*dns.EDNS0_SUBNET) ([]dns.EDNS0, bool) { return nil, false }
+	s33 := func(seen *dns.EDNS0_SUBNET) ([]dns.EDNS0, bool) {
+		return []dns.EDNS0{&dns.EDNS0_SUBNET{Code: dns.EDNS0SUBNET, Family: 1, SourceNetmask: 24, SourceScope: 33, Address: vC19V4(203, 0, 113, 0)}}, true
+	}
+	a := vC19Client{remote: vC19V4(198, 51, 100, 10), hasOPT: true,
+		opts: []dns.EDNS0{&dns.EDNS0_SUBNET{Code: dns.EDNS0SUBNET, Family: 1, SourceNetmask: 24, Address: vC19V4(203, 0, 113, 0)}}}
+	plan := []vC19Planned{
+		{cl: a, upTTL: 60, rfTTL: 60, upGen: s33, rfGen: none},
+		{cl: vC19Client{remote: vC19V4(198, 51, 100, 11), hasOPT: true}, upTTL: 60, rfTTL: 60, upGen: none, rfGen: none},
+	}
+	vC19ExecHistory(tr, b, 0, false, false, func(*ecs.Policy, [2]int) []vC19Planned { return plan }, "cache-replay-overlong-scope")
 }
 
 func vC19HistoryCase(tr *vC19Trace, r *rand.Rand) {
@@ -1047,6 +1076,7 @@ func vC19ExecHistory(tr *vC19Trace, b vC19BuildArgs, ecsMax time.Duration, prefe
 	known := map[int]vC19Answer{}
 	byEntry := map[*CacheEntry]int{} // which answer an entry holds
 	goFail := ""
+	unusable := false // the first failure of this history is a declared scope the code cannot use
 	scopedHits, sharedHits, refreshes, scopedStores := 0, 0, 0, 0
 	fail := func(s string) {
 		if goFail == "" {
@@ -1169,9 +1199,13 @@ func vC19ExecHistory(tr *vC19Trace, b vC19BuildArgs, ecsMax time.Duration, prefe
 			}
 			en := fresh[0]
 			byEntry[en] = up.id
-			declared := vC19DeclaredScope(up.opts, up.hasOPT)
+			declared, dkind := vC19DeclaredScope(up.opts, up.hasOPT)
 			eff := vC19Effective(pol, declared, up.seen)
 			known[up.id] = vC19Answer{q: names[qi], cd: cd, eff: eff}
+			if dkind == 3 && up.seen != nil && up.seen.SourceNetmask > 0 && !en.scope.IsValid() {
+				fail(fmt.Sprintf("op %d: the authority declared a non-zero SCOPE nobody can interpret (%v) for a query that carried %v; the answer is filed under the shared key", i, up.opts, up.seen))
+				unusable = true
+			}
 			if served != up.id {
 				fail(fmt.Sprintf("op %d: miss served answer %d, upstream produced %d", i, served, up.id))
 			}
@@ -1196,7 +1230,10 @@ func vC19ExecHistory(tr *vC19Trace, b vC19BuildArgs, ecsMax time.Duration, prefe
 					fail(fmt.Sprintf("op %d: upstream saw %s: %s", i, up.seen.String(), why))
 				}
 			}
-			if en.scope != eff {
+			if en.scope != eff && dkind == 2 {
+				unusable = true
+			}
+			if en.scope != eff && dkind != 3 {
 				fail(fmt.Sprintf("op %d: entry stored under scope %s, declared %s forwarded %v floor -> audience %s", i, en.scope, declared, up.seen, eff))
 			}
 			if en.scope.IsValid() {
@@ -1259,7 +1296,7 @@ func vC19ExecHistory(tr *vC19Trace, b vC19BuildArgs, ecsMax time.Duration, prefe
 				}
 				if len(fresh) == 1 {
 					byEntry[fresh[0]] = rf.id
-					declared := vC19DeclaredScope(rf.opts, rf.hasOPT)
+					declared, _ := vC19DeclaredScope(rf.opts, rf.hasOPT)
 					eff := vC19Effective(pol, declared, rf.seen)
 					known[rf.id] = vC19Answer{q: names[qi], cd: cd, eff: netip.Prefix{}}
 					if rf.seen != nil {
@@ -1301,7 +1338,7 @@ func vC19ExecHistory(tr *vC19Trace, b vC19BuildArgs, ecsMax time.Duration, prefe
 	}
 	tr.emit(map[string]any{"k": k,
 		"coq":     fmt.Sprintf("CaseCache (mk_ccfg %s %d%%Z %s) [%s]", b.coq(), int64(ecsMax), vC19Bool(prefetch), strings.Join(ops, "; ")),
-		"go_fail": goFail, "nontrivial": scopedStores > 0 || sharedHits > 0,
+		"go_fail": goFail, "fkey": fkeyOf(unusable && strings.Contains(goFail, "SCOPE") || unusable && strings.Contains(goFail, "stored under scope")), "nontrivial": scopedStores > 0 || sharedHits > 0,
 		"desc": map[string]any{"ecs_cfg": fmt.Sprintf("%+v", b), "cache_limit_ttl": ecsMax.String(), "prefetch": prefetch, "ops": desc}})
 }
 
